@@ -15,6 +15,10 @@ CLAIMED = {
          'native back-end; std models'),
  'C05': ('5/C05', 'nogood search executed symbolically for Simple, both counting heuristics, Rand (every draw a fresh solver variable) and a Custom model heuristic (every admissible choice explored); delivered multiset compared with the definition, sender drop checked in the channel model, fuel exhaustion = non-termination candidate confirmed natively.',
          'roaring bitmaps as 32-bit vectors, crossbeam channel as FIFO model, StdRng over-approximated; bounded families (Rand/Custom: all 2-statement ADFs + seeded 3-statement ADFs)'),
+ 'C11': ('5/C11', 'seeded call histories on one Adf object executed symbolically on all 256 two-statement ADFs and 3-statement families; final answer compared with a fresh object, acceptance handles with the submitted tables (z3), and every entry of the private memo tables (ite/restrict caches, supports, count cache, unique table) audited semantically by z3; one job explores every hash iteration order.',
+         'std models; Rand excluded from the fresh-object comparison'),
+ 'C19': ('5/C19', 'producer, relay and last store executed symbolically with the channel model; each poll sees a symbolic non-decreasing prefix of the sent messages (solver variable) and requests an unconstrained symbolic handle; after every poll z3/structural checks: receiver table = producer prefix of consumed length, found <=> present afterwards; after the final drain all tables identical.',
+         'crossbeam channel = FIFO model; threads replaced by the prefix-visibility argument; chain length 2'),
  'C12': ('5/C12', 'the C13/C06/C07 harnesses and the semantics at n=2 are executed against MIR dumped under each cargo feature set and compared with the oracle (hence with each other and the default build); quick: default + 3 seed-drawn sets, thorough: all 12.',
          'std models; native replay binary is rebuilt per feature set for validation and replay'),
  'C13': ('5/C13', 'every diagram query executed symbolically on diagrams from symbolic truth tables; z3 decides path counts, model-count ratio and 2^depth normalisation, depth, support, both impact measures, disjointness and exact cover of the path cubes; ModelCounts kernels at full 64-bit width.',
